@@ -248,6 +248,10 @@ def main(tier, seed):
 
 
 def replay(path):
+    if "=== " in open(path).read():
+        import oracles
+        import seqcheck
+        return seqcheck.replay("C03", path, oracles.oracle_for(["C03"]))
     cases = [l.strip() for l in open(path) if l.count("|") == 2 and l.split("|")[0].strip().replace(" ", "").isdigit()]
     vlib.build_harness()
     vlib.build_model()
